@@ -176,6 +176,9 @@ class Fn:
                 return n.id, env[n.id]
             if n.id in self.consts:
                 return self.consts[n.id]
+            auto = self.unit.auto_consts.get(n.id)
+            if auto is not None:      # a module- or class-level `NAME = <literal>` of the same file, assigned exactly once (a literal given a name)
+                return auto
             fail(n, f"name '{n.id}' is not a (definitely assigned) local, parameter or known constant")
         if isinstance(n, ast.Attribute):
             # ClassName.CONST
@@ -831,6 +834,7 @@ class Unit:
         # that become extra leading parameters of the generated definition (pure inputs; if the text changes in the
         # source the expression is no longer recognised and the translation fails loudly)
         self.reads = reads or {}
+        self.auto_consts = {}
         self.uses = []           # other units whose translated functions may be called (their generated module is imported)
         self.sigs = {}
         self.const_values = {}
@@ -848,6 +852,44 @@ class Unit:
             if isinstance(n, ast.FunctionDef) and n.name == name:
                 return n, body
         raise ShapeError("function not found")
+
+    def literal_constants(self, tree):
+        """every module-level (and, for a class unit, class-level) `NAME = <int / float literal | Decimal("…") | Decimal(<int>)>` that is assigned
+        exactly once in the file and never declared global/rebound: a literal that was given a name.  Resolved only when a function uses a name
+        that is neither a local nor a configured constant, so moving a literal into a named constant does not leave the subset."""
+        out, count = {}, {}
+        bodies = [tree.body] + [n.body for n in tree.body if isinstance(n, ast.ClassDef) and n.name == self.cls]
+        for n in ast.walk(tree):
+            if isinstance(n, (ast.Assign, ast.AnnAssign, ast.AugAssign)):
+                for tg in (n.targets if isinstance(n, ast.Assign) else [n.target]):
+                    if isinstance(tg, ast.Name):
+                        count[tg.id] = count.get(tg.id, 0) + 1
+            elif isinstance(n, ast.Global):
+                for nm in n.names:
+                    count[nm] = count.get(nm, 0) + 2
+        for body in bodies:
+            for n in body:
+                if not isinstance(n, (ast.Assign, ast.AnnAssign)) or n.value is None:
+                    continue
+                tg = n.targets[0] if isinstance(n, ast.Assign) else n.target
+                if not isinstance(tg, ast.Name) or count.get(tg.id) != 1:
+                    continue
+                v = n.value
+                try:
+                    cv = const_value(v)
+                    if cv is not None:
+                        out[tg.id] = (f"({cv} : Int)", "int")
+                    elif isinstance(v, ast.Constant) and type(v.value) is float and v.value == v.value and abs(v.value) != float("inf"):
+                        num, den = v.value.as_integer_ratio()
+                        out[tg.id] = (f"(({num} : Rat) / ({den} : Rat))", "fconst")
+                    elif isinstance(v, ast.Call) and getattr(v.func, "id", None) == "Decimal" and len(v.args) == 1 and not v.keywords:
+                        if isinstance(v.args[0], ast.Constant) and isinstance(v.args[0].value, str):
+                            out[tg.id] = (dec_literal(v.args[0].value, v)[0], "dec")
+                        elif const_value(v.args[0]) is not None:
+                            out[tg.id] = (f"({const_value(v.args[0])} : Rat)", "dec")
+                except ShapeError:
+                    pass
+        return out
 
     def read_consts(self, body):
         """class/module level `NAME = <int literal>` / `NAME = Decimal("…")` that the config lists"""
@@ -880,6 +922,7 @@ class Unit:
         with open(path) as f:
             tree = ast.parse(f.read(), path)
         defs, failures = [], []
+        self.auto_consts = self.literal_constants(tree)
         for u in self.uses:
             self.sigs.update(u.sigs)
         for name, ptypes in self.funcs:
